@@ -3,3 +3,4 @@ import BLDFM.Column
 import BLDFM.Grid
 import BLDFM.Solver
 import BLDFM.Geo
+import BLDFM.Pbl
